@@ -151,7 +151,7 @@ func regAlphabet(e *regEnv, maxReg, maxBatch, maxOut int) []ROp {
 			ops = append(ops, ROp{Op: "Sync", T: t, N: k})
 		}
 	}
-	ops = append(ops, ROp{Op: "SyncUnknown"}, ROp{Op: "SyncUnknown", N: 1})
+	ops = append(ops, ROp{Op: "SyncUnknown"}, ROp{Op: "SyncUnknown", N: 1}, ROp{Op: "ReleaseUnknown"})
 	for _, t := range e.strayTables() {
 		ops = append(ops, ROp{Op: "SyncStray", T: t, N: 0}, ROp{Op: "SyncStray", T: t, N: 1})
 	}
@@ -182,6 +182,8 @@ func (e *regEnv) apply(op ROp) {
 		e.sync(e.nextTbl+1, op.N, "")
 	case "SyncStray":
 		e.syncStray(op.T, op.N)
+	case "ReleaseUnknown":
+		e.releaseStray(e.nextTbl + 1)
 	case "Release":
 		e.release(op.T, "")
 	case "Settle":
